@@ -23,6 +23,11 @@ SUP_PAIRS = {
 }
 
 
+LINK_PAIRS = {      # shipped stripped main -> (shipped debug file, the file name stored in the main's .gnu_debuglink)
+    'unittests__debuglink': ('unittests__debuglink.debug', b'debuglink.debug'),
+}
+
+
 def _try(fn):
     try:
         return ('ok', fn())
@@ -205,6 +210,9 @@ def _c11_plan(tier, seed):
         if info[n]['sup']:
             for cfg in ('sup_plain', 'sup_main_gabi', 'sup_peer_gabi', 'sup_both_gabi', 'sup_noloader', 'sup_nofollow'):
                 plan.append((n, cfg, None))
+    for main, (peer, stored) in sorted(LINK_PAIRS.items()):
+        for cfg in ('corpus_link', 'corpus_link_peer_gabi', 'corpus_link_nofollow', 'corpus_link_flip', 'corpus_link_trunc', 'corpus_link_wrong'):
+            plan.append((main, cfg, None))
     n_seeded = 1500 if tier == 'quick' else 40000
     _ST.update(mode='C11', info=info, elig=elig, plan=plan, n_seeded=n_seeded, tier=tier,
                skipped={n: i['why'] for n, i in info.items() if not i['ok']})
@@ -276,9 +284,67 @@ def _diff_views(a, b):
     return sorted(k for k in set(a) | set(b) if a.get(k) != b.get(k))
 
 
+def _c11_corpus_link(spec):
+    """The shipped stripped-main / debug-file pair, the debug file served through the loader seam."""
+    name = spec['file']
+    cfg = spec['config']
+    peer_name, stored = LINK_PAIRS[name]
+    main = env.corpus_bytes(name)
+    peer = env.corpus_bytes(peer_name)
+    violations = []
+    faults = {}
+
+    def viol(check, expected, observed, part=''):
+        violations.append(dict(key='%s|%s%s' % (cfg, check, ('|' + part) if part else ''), check=check, expected=expected, observed=observed))
+    ref = open_view(peer, follow=False, loader=False)
+    served = peer
+    if cfg == 'corpus_link_peer_gabi':
+        img = elfedit.Image(peer)
+        for sct in img.debug_sections():
+            img.to_gabi(sct, 6)
+        served = img.build()
+        # the link stores the checksum of the shipped debug file: a re-encoded peer needs the field updated
+        mi = elfedit.Image(main)
+        link = mi.find('.gnu_debuglink')
+        body = bytearray(mi.content(link))
+        body[-4:] = elfedit.crc32(served).to_bytes(4, mi.raw.bo)
+        mi.set_content(link, bytes(body))
+        main = mi.build()
+    pf = None
+    peers = {stored: served}
+    if cfg == 'corpus_link_flip':
+        pf = {stored: dict(subs={len(peer) // 2: peer[len(peer) // 2] ^ 1})}
+    elif cfg == 'corpus_link_trunc':
+        pf = {stored: dict(eof=len(peer) - 1)}
+    elif cfg == 'corpus_link_wrong':
+        peers = {stored: env.corpus_bytes('x_gcc_v4.so')}
+    res = open_view(main, peers=peers, follow=(cfg != 'corpus_link_nofollow'), loader=True, peer_faults=pf)
+    if cfg in ('corpus_link', 'corpus_link_peer_gabi'):
+        if res['outcome'] != 'view':
+            viol('rejected', 'the view of the debug file', list(res['exc']))
+        else:
+            for part in _diff_views(ref['view'], res['view'])[:3]:
+                viol('view-differs', 'identical ' + part, 'different ' + part, part)
+            if res['loads'] != [stored]:
+                viol('loader-path', [stored.decode()], [x.decode('utf-8', 'replace') for x in res['loads']])
+    elif cfg == 'corpus_link_nofollow':
+        if res['outcome'] != 'view' or res['view']['has_debug_info'] or res['loads']:
+            viol('nofollow', 'no debug info, loader not called', [res['outcome'], [x.decode('utf-8', 'replace') for x in res['loads']]])
+    else:
+        kind = 'link_crc_' + cfg.rsplit('_', 1)[1]
+        faults[kind] = [1, int(bool(res['loads']))]
+        if res['outcome'] != 'rejected' or res['exc'][1] not in ('ELFError', 'ELFParseError'):
+            viol('accepted', 'ELFError (checksum of the served file differs from the link)', res.get('exc') and list(res['exc']) or 'a view was returned')
+    log = [cfg, res.get('outcome'), sorted((res.get('view') or {}).items()), res.get('exc'), [bytes(x) for x in res['loads']]]
+    return dict(spec=spec, violations=violations, digest=pdigest(log), nontrivial=True, nt_digest=pdigest(name, cfg), evaluations=1,
+                sim_time=res['sim_time'] + ref['sim_time'], faults=faults, probes={'cfg_' + cfg: 1}, sample=None)
+
+
 def _c11_exec(spec):
     name = spec['file']
     cfg = spec['config']
+    if cfg.startswith('corpus_link'):
+        return _c11_corpus_link(spec)
     p = spec.get('params') or {}
     data = env.corpus_bytes(name)
     violations = []
